@@ -48,6 +48,7 @@ const (
 	c04TMsg   = "larking.testpb.Message"
 	c04CustA  = "application/vnd.verif+x"
 	c04CustB  = "text/x-verif"
+	c04CustC  = "application/a+verif" // sorts before every built-in type
 	c04PrefA  = 0xA7
 	c04PrefB  = 0xB3
 	c04MaxHex = 1 << 22
@@ -217,11 +218,33 @@ func (e *c04Env) get(variant, maxsend int) *c04Mux {
 	if m, ok := e.muxes[key]; ok {
 		return m
 	}
+	if variant >= 2 {
+		// variants 2, 3, 4 are three muxes created one after the other in this order -- one custom codec, another
+		// custom codec, none -- so that each is judged against its own codecs with the others existing beside it
+		for v := 2; v <= 4; v++ {
+			e.muxes[fmt.Sprintf("%d/%d", v, maxsend)] = e.build(v, maxsend)
+		}
+		return e.muxes[key]
+	}
+	m := e.build(variant, maxsend)
+	e.muxes[key] = m
+	return m
+}
+
+func (e *c04Env) build(variant, maxsend int) *c04Mux {
 	var opts []larking.MuxOption
 	codecs := map[string]string{"application/json": "json", "application/protobuf": "proto", "application/octet-stream": "proto", c04HB: "body"}
 	if variant == 1 {
 		opts = append(opts, larking.CodecOption(c04CustA, c04Codec{"verifa", c04PrefA}), larking.CodecOption(c04CustB, c04Codec{"verifb", c04PrefB}))
 		codecs[c04CustA], codecs[c04CustB] = "xa", "xb"
+	}
+	if variant == 2 {
+		opts = append(opts, larking.CodecOption(c04CustA, c04Codec{"verifa", c04PrefA}))
+		codecs[c04CustA] = "xa"
+	}
+	if variant == 3 {
+		opts = append(opts, larking.CodecOption(c04CustC, c04Codec{"verifc", c04PrefB}))
+		codecs[c04CustC] = "xb"
 	}
 	if maxsend > 0 {
 		opts = append(opts, larking.MaxSendMessageSizeOption(maxsend))
@@ -236,9 +259,7 @@ func (e *c04Env) get(variant, maxsend int) *c04Mux {
 	for _, k := range keys {
 		parts = append(parts, hx([]byte(k))+":"+codecs[k])
 	}
-	m := &c04Mux{mux: mux, regErr: errs, codecs: strings.Join(parts, ","), comps: hx([]byte("gzip"))}
-	e.muxes[key] = m
-	return m
+	return &c04Mux{mux: mux, regErr: errs, codecs: strings.Join(parts, ","), comps: hx([]byte("gzip"))}
 }
 
 func c04Hdr(s string) []string {
@@ -319,12 +340,12 @@ func c04Decode(ct string, variant1 bool, body []byte, into proto.Message) (kind 
 		return "json", protojson.Unmarshal(body, into)
 	case "application/protobuf", "application/octet-stream":
 		return "proto", proto.Unmarshal(body, into)
-	case c04CustA, c04CustB:
+	case c04CustA, c04CustB, c04CustC:
 		if !variant1 {
 			return "none", fmt.Errorf("no codec")
 		}
 		p, kind := byte(c04PrefA), "xa"
-		if ct == c04CustB {
+		if ct == c04CustB || ct == c04CustC {
 			p, kind = c04PrefB, "xb"
 		}
 		if len(body) == 0 || body[0] != p {
@@ -526,10 +547,10 @@ func c04Run(o *out, input string) {
 				if ishb == "1" {
 					raw = fmt.Sprint(b2i(bytes.Equal(rs.body, sel.Get(sel.Descriptor().Fields().ByName("data")).Bytes())))
 				}
-				dec = c04DecEq(rs.ctv, variant == 1, rs.body, sel)
+				dec = c04DecEq(rs.ctv, variant >= 1, rs.body, sel)
 			}
 		} else {
-			code = c04ErrCode(rs.ctv, variant == 1, rs.body)
+			code = c04ErrCode(rs.ctv, variant >= 1, rs.body)
 		}
 		o.emit(input, fmt.Sprintf("%d %s %s %s %d %s %s %s %s", rs.status, rs.ct, rs.ce, rs.ceok, len(rs.body), raw, dec, code, oracle))
 		if rs.status == 200 && (len(input)+len(reqbody))%2 == 1 {
@@ -540,7 +561,7 @@ func c04Run(o *out, input string) {
 			// bodies are compared decoded: the byte order of a marshalled dynamic message is not stable
 			dec2 := "none:0"
 			if sel != nil && !re.panicked && re.status == 200 {
-				dec2 = c04DecEq(re.ctv, variant == 1, re.body, sel)
+				dec2 = c04DecEq(re.ctv, variant >= 1, re.body, sel)
 			}
 			if re.panicked || re.status != rs.status || re.ct != rs.ct || re.ce != rs.ce || dec2 != dec {
 				obs = fmt.Sprintf("diff status=%d/%d ct=%s/%s ce=%s/%s decoded=%s/%s", rs.status, re.status, rs.ct, re.ct, rs.ce, re.ce, dec, dec2)
